@@ -137,13 +137,37 @@ def layout_cases(draw, tier):
             out.append(draw(st.sampled_from(['', '# comment', '#INPUT(zz)', '# x = AND(a, b)', '#'])))
         out.append(lines[i][2])
     text = '\n'.join(out) + ('\n' if draw(st.booleans()) else '')
-    return {'nl': nl, 'text': text}
+    return {'nl': nl, 'text': text,
+            'entry': draw(st.sampled_from(['string', 'string', 'file', 'parser_lines', 'parser_stripped']))}
 
 
 def check_layout(case):
     core = cirbo_core()
     nl, text = case['nl'], case['text']
-    parsed = core.Circuit.from_bench_string(text)
+    entry = case.get('entry', 'string')
+    parser_cls = None
+    if entry.startswith('parser'):
+        try:
+            from cirbo.core.parser.bench import BenchToCircuit as parser_cls
+        except ImportError:
+            entry = 'string'
+    if entry == 'file':
+        d = tempfile.mkdtemp(prefix='c11_', dir=os.path.join(VERIF_DIR, '.scratch'))
+        try:
+            path = os.path.join(d, 'layout.bench')
+            with open(path, 'w') as f:
+                f.write(text)
+            parsed = core.Circuit.from_bench_file(path)
+        finally:
+            shutil.rmtree(d, ignore_errors=True)
+    elif entry == 'parser_lines':
+        # the parser object itself, fed the lines with their terminators
+        parsed = parser_cls().convert_to_circuit(text.splitlines(keepends=True))
+    elif entry == 'parser_stripped':
+        # ... or without them (text.splitlines()), as a one-shot generator
+        parsed = parser_cls().convert_to_circuit(ln for ln in text.splitlines())
+    else:
+        parsed = core.Circuit.from_bench_string(text)
     got = refsem.from_circuit(parsed)
     # inputs in the order of INPUT lines, outputs in the order of OUTPUT lines
     exp_in, exp_out = [], []
@@ -172,6 +196,7 @@ def check_layout(case):
     if pr:
         raise Violation('wellformed', '; '.join(pr[:3]))
     cls = gen.classify(nl) | _kw_classes(nl)
+    cls.add('entry:' + entry)
     stored = [g[0] for g in got['gates']]
     pos = {l: i for i, l in enumerate(stored)}
     if any(pos[o] > pos[l] for l, _, ops in got['gates'] for o in ops):
@@ -192,7 +217,7 @@ SPEC = {
     'rule': ('(a) Hypothesis circuits over all types/arities with identifier labels ([A-Za-z0-9_@], incl. labels that '
              'begin with input/output/vdd/buff/not/and in any case, on inputs, gates and outputs), built by storage-order '
              'varying routes: parse(format_circuit(c)) == c and from_bench_file(save_to_file(c)) == c (fresh file names, and one name per process overwritten again and again) incl. input/output '
-             'order. (b) netlist + generated layout (permuted declaration lines = use before definition, any letter case '
+             'order. (b) netlist + generated layout, parsed through from_bench_string / from_bench_file / the parser object fed lines with or without terminators (permuted declaration lines = use before definition, any letter case '
              'of INPUT/OUTPUT/operator names, BUFF/IFF, vdd alias, spaces around = , ( ), comment and blank lines, with or '
              'without final newline): parsed gate map, input order, output order and truth table equal the netlist the '
              'text was printed from. Non-trivial: keyword-prefixed label, use before definition or an alias present.'),
@@ -201,5 +226,6 @@ SPEC = {
              Sub('layout', layout_cases, check_layout, {'quick': 2500, 'thorough': 200000})],
     'required_classes': {'roundtrip': ['kw_input_on_gate', 'kw_output_on_gate', 'kw_input_on_input', 'kw_on_output',
                                        'route:rename', 'via_file', 'via_file_same_path', 'nary>=3', 'constant'],
-                         'layout': ['use_before_definition', 'alias_buff', 'alias_vdd', 'comment', 'kw_input_on_gate']},
+                         'layout': ['use_before_definition', 'alias_buff', 'alias_vdd', 'comment', 'kw_input_on_gate',
+                                    'entry:string', 'entry:file', 'entry:parser_lines', 'entry:parser_stripped']},
 }
